@@ -289,3 +289,12 @@ B("c04-maze-stale-mask-position", "C04", "C04.R8", (R + "maze/env.py", "Maze.ste
 B("c04-2048-stale-mask-board", "C04", "C04.R8", (L + "game_2048/env.py", "Game2048.step", "expr", "self._get_action_mask(board=updated_board)", "self._get_action_mask(board=state.board)"))
 B("c04-snake-stale-mask-body", "C04", "C04.R8", (R + "snake/env.py", "Snake.step", "expr", "self._get_action_mask(head_position, body_state)", "self._get_action_mask(head_position, state.body_state)"))
 T("c07-twin-snake-fruit-body-expr", "C07", (R + "snake/env.py", "Snake.step", "expr", "jax.lax.cond(fruit_eaten, self._sample_fruit_coord, lambda *_: state.fruit_position, body, fruit_key)", "jax.lax.cond(fruit_eaten, self._sample_fruit_coord, lambda *_: state.fruit_position, body_state > 0, fruit_key)"))
+
+# ---------------------------------------------------------------- C08 (wiring clauses)
+B("c08-tsp-last-reward-zero", "C08", "C08.R1", (R + "tsp/env.py", "TSP.step", "expr", "termination", "lambda reward, observation: termination(jnp.zeros_like(reward), observation)", 1))
+B("c08-tsp-swap-states", "C08", "C08.R3", (R + "tsp/env.py", "TSP.step", "expr", "self.reward_fn(state, action, next_state, is_valid)", "self.reward_fn(next_state, action, state, is_valid)"))
+B("c08-binpack-done-flag", "C08", "C08.R3", (P + "bin_pack/env.py", "BinPack.step", "expr", "self.reward_fn(state, action, next_state, action_is_valid, done)", "self.reward_fn(state, action, next_state, action_is_valid, ~action_is_valid)"))
+B("c08-knapsack-next-is-state", "C08", "C08.R3", (P + "knapsack/env.py", "Knapsack.step", "expr", "self.reward_fn(state, action, next_state, is_valid, is_done)", "self.reward_fn(state, action, state, is_valid, is_done)"))
+B("c08-minesweeper-stride", "C08", "C08.R2", (L + "minesweeper/utils.py", "explored_mine", "expr", "state.board.shape[-1]", "state.board.shape[-2]"))
+T("c08-twin-kwargs", "C08", (R + "tsp/env.py", "TSP.step", "expr", "self.reward_fn(state, action, next_state, is_valid)", "self.reward_fn(state=state, action=action, next_state=next_state, is_valid=is_valid)"))
+T("c08-twin-done-commuted", "C08", (P + "bin_pack/env.py", "BinPack.step", "expr", "~jnp.any(next_state.action_mask) | ~action_is_valid", "~action_is_valid | ~jnp.any(next_state.action_mask)"))
